@@ -602,3 +602,18 @@ def mirror_model(model):
     out["event"] = [MIRROR.get(x, x) for x in model["event"]]
     out["lines"] = [dict(ln, node=node(ln["node"])) for ln in model["lines"]]
     return out
+
+
+def mirror_fourbody(model):
+    """mirror_model + the parameter / constant rows that are keyed by a resonance name (NAME_mass, NAME::Spline::Min ...)."""
+    out = mirror_model(model)
+
+    def rename(nm):
+        for k in sorted(MIRROR, key=len, reverse=True):
+            if nm.startswith(k + "_") or nm.startswith(k + "::"):
+                return MIRROR[k] + nm[len(k):]
+        return nm
+
+    out["params"] = [(rename(p[0]), *p[1:]) for p in model["params"]]
+    out["consts"] = [(rename(c[0]), *c[1:]) for c in model["consts"]]
+    return out
